@@ -72,22 +72,70 @@ theorem gen_sender_for_bundle_locks :
     Dtn7.Gen.C18.senderForBundleOpsSprayAndWait = (rfProgram false).map Op.name ∧
     Dtn7.Gen.C18.senderForBundleOpsBinarySpray = (rfProgram false).map Op.name := by decide
 
-/-- The `< 2` guards (before and inside the loop), the `- 1`, and binary spray's `/ 2` split. -/
-theorem gen_sender_for_bundle_copies :
-    Dtn7.Gen.C18.senderForBundleCopiesSprayAndWait =
-      ["if metadata.remainingCopies < 2",
+/-- `SprayAndWait.SenderForBundle`: nothing below two copies (before and inside the loop), peers in
+`sent` are skipped, a selected peer is appended to `sent` and costs one copy. -/
+theorem gen_sender_for_bundle_spray :
+    Dtn7.Gen.C18.senderForBundleSkeletonSprayAndWait =
+      ["sw.dataMutex.RLock()",
+       "metadata, ok := sw.bundleData[bp.Id]",
+       "sw.dataMutex.RUnlock()",
+       "if !ok",
+       "  return",
+       "if metadata.remainingCopies < 2",
+       "  return nil, false",
+       "for _, cs := range sw.c.claManager.Sender()",
        "  if metadata.remainingCopies < 2",
        "    break",
+       "  var skip = false",
+       "  for _, eid := range metadata.sent",
+       "    if cs.GetPeerEndpointID() == eid",
+       "      skip = true",
        "      break",
-       "    metadata.remainingCopies = metadata.remainingCopies - 1"] ∧
-    Dtn7.Gen.C18.senderForBundleCopiesBinarySpray =
-      ["if metadata.remainingCopies < 2",
+       "  if !skip",
+       "    css = append(css, cs)",
+       "    metadata.sent = append(metadata.sent, cs.GetPeerEndpointID())",
+       "    metadata.remainingCopies = metadata.remainingCopies - 1",
+       "sw.dataMutex.Lock()",
+       "sw.bundleData[bp.Id] = metadata",
+       "sw.dataMutex.Unlock()",
+       "del = false",
+       "return"] := by decide
+
+/-- `BinarySpray.SenderForBundle`: nothing below two copies, the first peer not in `sent` is appended
+to `sent` and gets `remainingCopies / 2` copies, which are subtracted and written into the bundle's
+BinarySprayBlock (existing or new); one peer per call. -/
+theorem gen_sender_for_bundle_binary :
+    Dtn7.Gen.C18.senderForBundleSkeletonBinarySpray =
+      ["bs.dataMutex.RLock()",
+       "metadata, ok := bs.bundleData[bp.Id]",
+       "bs.dataMutex.RUnlock()",
+       "if !ok",
+       "  return",
+       "if metadata.remainingCopies < 2",
+       "  return nil, false",
+       "for _, cs := range bs.c.claManager.Sender()",
+       "  var skip = false",
+       "  for _, eid := range metadata.sent",
+       "    if cs.GetPeerEndpointID() == eid",
+       "      skip = true",
        "      break",
+       "  if !skip",
+       "    css = append(css, cs)",
+       "    metadata.sent = append(metadata.sent, cs.GetPeerEndpointID())",
        "    sendCopies := metadata.remainingCopies / 2",
        "    metadata.remainingCopies = metadata.remainingCopies - sendCopies",
+       "    if metadataBlock, err := bp.MustBundle().ExtensionBlock(bpv7.ExtBlockTypeBinarySprayBlock); err == nil",
+       "      binarySprayBlock := metadataBlock.Value.(*bpv7.BinarySprayBlock)",
        "      binarySprayBlock.SetCopies(sendCopies)",
+       "    else",
        "      metadataBlock := bpv7.NewBinarySprayBlock(sendCopies)",
-       "    break"] := by decide
+       "      bp.MustBundle().AddExtensionBlock(bpv7.NewCanonicalBlock(0, 0, metadataBlock))",
+       "    break",
+       "bs.dataMutex.Lock()",
+       "bs.bundleData[bp.Id] = metadata",
+       "bs.dataMutex.Unlock()",
+       "del = false",
+       "return"] := by decide
 
 /-- `NotifyNewBundle`: `L` copies for a bundle originated here and one for a relayed bundle
 (spray-and-wait, decided by the source endpoint); the announced copies if there is a
